@@ -611,3 +611,56 @@ pub fn replay_file(props: &[Box<dyn Prop>], path: &Path) -> i32 {
     eprintln!("unknown property {pid}");
     2
 }
+
+/// `qv triage <ID> <n>`: run n generated cases per domain (single thread) and print a histogram
+/// of every non-pass outcome (owned or foreign) keyed by rule + first tags, with one example.
+pub fn triage(prop: &dyn Prop, seed: u64, n: u32) {
+    use proptest::strategy::ValueTree;
+    let excl = Exclusions::default();
+    for dom in prop.domains() {
+        let cfg = Config {
+            cases: n,
+            failure_persistence: None,
+            ..Config::default()
+        };
+        let rng = TestRng::from_seed(RngAlgorithm::ChaCha, &seed_bytes(seed, prop.id(), dom.name(), 0));
+        let mut runner = TestRunner::new_with_rng(cfg, rng);
+        let strat = dom.strategy(Tier::Quick);
+        let mut hist: BTreeMap<String, (u64, String, Value)> = BTreeMap::new();
+        let mut pass = 0u64;
+        let mut nontrivial = 0u64;
+        for _ in 0..n {
+            let raw = strat.new_tree(&mut runner).unwrap().current();
+            let case = dom.decode(&raw, &excl);
+            let r = dom.run(&case, &excl);
+            let (kind, v) = match r.verdict {
+                Verdict::Pass => {
+                    pass += 1;
+                    if r.nontrivial {
+                        nontrivial += 1;
+                    }
+                    continue;
+                }
+                Verdict::Violation(v) => ("OWNED", v),
+                Verdict::Foreign(v) => ("foreign", v),
+                Verdict::Inconclusive(m) => ("inconclusive", Violation::new(crate::engine::Rule::Setup, m)),
+            };
+            let short: String = v.msg.chars().filter(|c| !c.is_ascii_digit()).take(70).collect();
+            let key = format!("{kind} {:?} {}", v.rule, short);
+            let e = hist.entry(key).or_insert((0, v.msg.clone(), case.clone()));
+            e.0 += 1;
+        }
+        println!("== domain {}: {} cases, pass {}, nontrivial {}", dom.name(), n, pass, nontrivial);
+        let mut items: Vec<_> = hist.into_iter().collect();
+        items.sort_by_key(|x| std::cmp::Reverse(x.1 .0));
+        for (i, (k, (cnt, msg, case))) in items.iter().enumerate() {
+            println!("{cnt:6}  {k}\n        e.g. {msg}");
+            let dir = verif_root().join("replays");
+            let _ = std::fs::create_dir_all(&dir);
+            let p = dir.join(format!("triage-{}-{}-{}.json", prop.id(), dom.name(), i));
+            let body = json!({"property": prop.id(), "violation": {"msg": msg}, "replay": {"domain": dom.name(), "case": case}});
+            let _ = std::fs::write(&p, serde_json::to_string_pretty(&body).unwrap());
+            println!("        saved {}", p.display());
+        }
+    }
+}
